@@ -25,6 +25,13 @@ a device model applies (PC-E500 default, IQ-7000: wake event on a new press, no 
 register), with "injected taps" bursts, and `irq_count` is observed; operations the keyboard rejects (unknown key,
 foreign port) are interleaved and must leave no trace.
 
+Round 5: "chord" histories (1/7) use 9..20 keys with a chord sub-sequence (all columns strobed, every key goes
+down / up between the same two scan ticks), so a single tick produces more transitions than the queue holds; the
+Python matrix / handler models run with generated host observers attached (scan trace hook, KIO trace hook,
+perfetto tracer object: none 1/2, counting only 1/8, raising at generated invocations with a generated exception
+type 3/8) -- the host catches an observer fault that comes out of an operation and carries on; a tick that ended
+that way is a scan tick of the history that returned no events.
+
 Oracle: history invariants only (c14_hist.judge) -- no cross-model verdict; thresholds, polarity, capacity and
 initial strobe registers are read back from the object under test.
 """
@@ -49,7 +56,12 @@ RULE = ("seeded histories (<= 120..300 ops) over press/release/strobe writes/sca
         "machine (same, plus one scan per executed instruction; generated interrupt mask with the KEY bit clear, "
         "1/4 of the histories with polling-firmware acknowledges of ISR bit 2 as instructions). Rust models run under "
         "a generated device keyboard configuration (default 4/6, IQ-7000 1/6, raw KIL 1/6); injected-tap bursts and "
-        "rejected operations (unknown key / foreign port) are interleaved. Non-trivial = the model produced >= 1 debounced "
+        "rejected operations (unknown key / foreign port) are interleaved. Round 5: 1/7 of the histories are chord "
+        "histories (9..20 keys, chord sub-sequences: every key pressed / released between the same two ticks under an "
+        "all-columns strobe; label hist:chord-keys(>=9), non-trivial for the class = "
+        "saw:tick-with-more-events-than-capacity); the Python matrix and handler run with generated host observers "
+        "(scan trace hook / KIO hook / tracer object; none 1/2, quiet 1/8, raising at generated invocations 3/8; labels "
+        "py-observers:*, non-trivial for the class = saw:observer-raised-inside-event-tick). Non-trivial = the model produced >= 1 debounced "
         "press event and the history has two held keys sharing a row, a strobe change while a key is held, or a "
         "queue overflow; distinct = hash of (model, configuration, operation list).")
 
@@ -1124,6 +1136,13 @@ ASSUMPTIONS = [
     "consumption of the queue; timers are off and the KEY bit of IMR is clear (straight-line program); ISR bit 2 is "
     "sampled at instruction boundaries and judged against the machine's _kb_irq_enabled (a generated configuration)",
     "py-handler: every call of PCE500KeyboardHandler.scan_tick (explicit, or inside a KIL read) is a scan tick",
+    "host observers (Python matrix / handler models): KeyboardMatrix._trace_hook, _kio_trace_hook and _perf_tracer -- "
+    "the attributes pce500/emulator.py attaches -- are observers: whether they are attached, what the KIO hook returns "
+    "and whether they raise (Exception subclasses only) is not part of the history; the host catches a generated "
+    "observer fault that escapes an operation and carries on; a scan tick that ended with such a fault is a scan tick "
+    "of the history that handed no events to its caller (afterwards every key's grammar position is resynchronised)",
+    "a Rust scan tick that reports more new events than the queue's capacity has unobservable events; the queue must "
+    "be within capacity and full (>= capacity-1) afterwards",
     "Rust scan_enabled=false, Python scan_enabled=False / KSD masking / release_all_keys are not explored",
 ]
 
